@@ -232,7 +232,13 @@ fn main() {
         }
         let topn = 1 + rng.usize(4);
         let minv = 1 + rng.usize(3);
-        let maxd = if dmode == 0 { *rng.pick(&[0.3f32, 0.7, 1.0, 1.5, 5.0]) } else { *rng.pick(&[-0.6f32, -0.2, 0.3, 1.0, 5.0]) };
+        let mut maxd = if dmode == 0 { *rng.pick(&[0.3f32, 0.7, 1.0, 1.5, 5.0]) } else { *rng.pick(&[-0.6f32, -0.2, 0.3, 1.0, 5.0]) };
+        // a fifth of the streams: the limit IS one of the stream's distances (both are inputs, so "not exceeding" is exact)
+        let ds: Vec<f32> = stream.iter().filter_map(|e| e.d).collect();
+        if !ds.is_empty() && rng.chance(0.2) {
+            maxd = *rng.pick(&ds);
+            rep.count("cases_with_a_distance_exactly_at_max_distance");
+        }
         let thr = *rng.pick(&[0.1f32, 0.3, 0.5, 0.7]);
         rep.eval();
         let ctx = json!({"stream[q,t,weight,distance]": js(&stream), "topn": topn, "min_votes": minv, "max_distance": maxd, "threshold": thr});
